@@ -525,6 +525,8 @@ bloc_parse_expression(bloc_context *ctx, const char *text)
   bloc::Context& _ctx = *reinterpret_cast<bloc::Context*>(ctx);
   bloc::StringReader reader(text);
   bloc::Parser * p = bloc::Parser::createInteractiveParser(_ctx, reader);
+  /* an expression may be laid out over several lines, like any source text */
+  p->state(bloc::Parser::Parsing);
   try
   {
     bloc_error_raz();
